@@ -107,7 +107,12 @@ def build_store(repo):
         for name, data in cs.get("top_extras", []):
             entries.append((name, data.encode() if isinstance(data, str) else data))
         # Release text
-        lines = [f"Origin: verif", f"Suite: {cn}", f"Codename: {cn}", "Date: Thu, 01 Jan 2009 00:00:00 UTC"]
+        hh = cs.get("hostile_header", {})  # C06: header fields under the upstream's control carry traversal strings
+        lines = [f"Origin: {hh.get('Origin', 'verif')}", f"Suite: {hh.get('Suite', cn)}", f"Codename: {hh.get('Codename', cn)}",
+                 "Date: Thu, 01 Jan 2009 00:00:00 UTC"]
+        for k in ("Label", "Version", "Description", "Changelogs", "Signed-By"):
+            if k in hh:
+                lines.append(f"{k}: {hh[k]}")
         if cs.get("by_hash"):
             lines.append("Acquire-By-Hash: yes")
         lines.append("Architectures: " + " ".join(sorted({a for cp in cs["components"].values() for a in cp.get("binaries", {})})))
